@@ -91,7 +91,7 @@ def sequencer(c):
                          term=O["o_term"], tx_valid=O["o_tx_valid"], tx_data=O["o_tx_data"]))
 
 
-def body(c, ts, path, X, full=True):
+def body(c, ts, path, X, can_chirp=True):
     """The sequencer contract over the observable terms X (ports of the stand-alone unit, or the same signals of the
     reset_sequencer instance inside a USBDevice).  `path`: hierarchical prefix of the sequencer's registers."""
     line, vbus = X["line"], B(X["vbus"])
@@ -234,7 +234,8 @@ def body(c, ts, path, X, full=True):
     c.cover("suspend_hs", z3.And(enter_susp, S("DETECT_HS_SUSPEND")), reach=False)
     c.cover("handshake_timeout", z3.And(awaiting, S("AWAIT_HOST_K"), c.nx(S("IS_LOW_OR_FULL_SPEED"))), reach=False)
     c.cover("restricted_reset_does_not_chirp", z3.And(bus_reset, vbus, restricted, S("LS_FS_NON_RESET")), reach=False)
-    c.cover("chirp_starts", z3.And(c.nx(op) != CHIRP, c.nx(op, 2) == CHIRP), reach=False)
+    if can_chirp:          # (a device on a full-speed-only PHY is permanently restricted: this situation must not exist there)
+        c.cover("chirp_starts", z3.And(c.nx(op) != CHIRP, c.nx(op, 2) == CHIRP), reach=False)
 
 
 def device(ulpi, full):
@@ -291,7 +292,7 @@ def device(ulpi, full):
                  speed=of(rs.current_speed), op=of(rs.operating_mode), term=of(rs.termination_select),
                  tx_valid=of(rs.tx.valid), tx_data=of(rs.tx.data))
         if full:
-            body(c, ts, "reset_sequencer.", X)
+            body(c, ts, "reset_sequencer.", X, can_chirp=not always_fs)
         elif always_fs:
             # (b) restricted for ever: only the full/low-speed part of the FSM is reachable
             fsm = ts.fsm("reset_sequencer.fsm_state")
@@ -307,6 +308,15 @@ def device(ulpi, full):
 
 
 def contracts(tier):
+    """HWV_ONLY_UNITS=<comma separated unit names> restricts the run to those units (development aid for mutation runs)."""
+    import os
+    only = [x for x in os.environ.get("HWV_ONLY_UNITS", "").split(",") if x]
+    for entry in _contracts(tier):
+        if not only or entry[0] in only:
+            yield entry
+
+
+def _contracts(tier):
     yield ("USBResetSequencer", "60MHz", sequencer)
     yield ("USBDevice", "utmi_always_fs_wiring", device(ulpi=False, full=False))
     yield ("USBDevice", "ulpi_wiring", device(ulpi=True, full=False))
